@@ -842,6 +842,66 @@ def gen_state() -> str:
     return "\n".join(txt)
 
 
+# ---------------------------------------------------------------- quote removal (core/analyzer.py:_remove_quotes)
+
+def gen_quoting() -> str:
+    an = parse_file("core/analyzer.py")
+    esc = module_assign(an, "_ANSI_C_ESCAPES")
+    pairs = []
+    if isinstance(esc, ast.Dict) and all(isinstance(k, ast.Constant) and isinstance(v, ast.Constant) and isinstance(k.value, str) and isinstance(v.value, str) and len(k.value) == 1 and len(v.value) == 1 for k, v in zip(esc.keys, esc.values)):
+        pairs = [(ord(k.value), ord(v.value)) for k, v in zip(esc.keys, esc.values)]
+    else:
+        MISSING.append("_ANSI_C_ESCAPES")
+    num = module_assign(an, "_ANSI_C_NUMERIC")
+    num_src = num.args[0].value if isinstance(num, ast.Call) and num.args and isinstance(num.args[0], ast.Constant) else None
+    if num_src is None:
+        MISSING.append("_ANSI_C_NUMERIC")
+        num_src = ""
+    # the words left to _strip_quotes, and the characters a backslash escapes inside double quotes
+    markers, dq = [], None
+    f = find_func(an, "_remove_quotes")
+    if f is not None:
+        for st in f.body:
+            if isinstance(st, ast.If) and isinstance(st.test, ast.BoolOp) and isinstance(st.test.op, ast.Or):
+                for v in st.test.values:
+                    if isinstance(v, ast.Compare) and isinstance(v.ops[0], ast.In) and isinstance(v.left, ast.Constant) and ast.unparse(v.comparators[0]) == "value":
+                        markers.append(v.left.value)
+                break
+        for n in ast.walk(f):
+            if isinstance(n, ast.Compare) and isinstance(n.ops[0], ast.In) and isinstance(n.comparators[0], ast.Constant) and isinstance(n.comparators[0].value, str) and ast.unparse(n.left) == "value[i + 1]":
+                dq = n.comparators[0].value
+    if not markers or dq is None:
+        MISSING.append("_remove_quotes shape")
+        dq = dq or ""
+    # where it is used: _analyze_command analyses the unquoted words a second time and keeps the stricter verdict
+    ac = find_func(an, "_analyze_command")
+    second = False
+    if ac is not None:
+        src = ast.unparse(ac)
+        second = "unquoted = [_remove_quotes(getattr(w, 'value', str(w))) for w in node.words]" in src and "if unquoted != words:" in src and "order.index(unquoted_decision.action) > order.index(cmd_decision.action)" in src
+    if not second:
+        MISSING.append("_analyze_command second pass")
+    txt = [
+        "-- GENERATED by harness/gen_tables.py from src/dippy/core/analyzer.py. Do not edit.",
+        "namespace Dippy.Generated.Quoting",
+        "",
+        "/-- `_ANSI_C_ESCAPES`: the one-letter escapes of $'…' -/",
+        "def ansiCEscapes : List (Char × Char) := [" + ", ".join("(Char.ofNat %d, Char.ofNat %d)" % p for p in pairs) + "]",
+        "/-- `_ANSI_C_NUMERIC` -/",
+        "def ansiCNumericPattern : String := " + lean_str(num_src),
+        "/-- the substrings that make `_remove_quotes` leave a word to `_strip_quotes` -/",
+        "def ownContextMarkers : List String := " + lean_list(markers),
+        "/-- the characters a backslash escapes inside double quotes -/",
+        "def doubleQuoteEscapable : String := " + lean_str(dq),
+        "/-- `_analyze_command` analyses the quote-removed words as well and keeps the stricter verdict -/",
+        "def secondPassPresent : Bool := " + ("true" if second else "false"),
+        "",
+        "end Dippy.Generated.Quoting",
+        "",
+    ]
+    return "\n".join(txt)
+
+
 # ---------------------------------------------------------------- statusline facts (C20)
 
 def gen_statusline() -> str:
@@ -1132,6 +1192,7 @@ def main() -> int:
         "Statusline.lean": gen_statusline(),
         "Sql.lean": gen_sql(),
         "PyCli.lean": gen_pycli(),
+        "Quoting.lean": gen_quoting(),
         "PyAst.lean": gen_pyast(),
     }
     miss = (
